@@ -68,7 +68,10 @@ def option_texts(opt, rng) -> list[tuple[str, str]]:
         for _ in range(8):
             sel = drm_selection(rng, allow_none=False)
             out.append(('drm-selection', sel))
-        out += [('drm-selection', 'all-moov'), ('drm-selection', 'all-cenc-pro'), ('drm-selection', 'none')]
+        out += [('drm-selection', 'all-moov'), ('drm-selection', 'all-cenc-pro'), ('drm-selection', 'none'),
+                # one system named twice (the later entry wins wherever the selection is used)
+                ('drm-selection-repeated', 'playready-cenc,playready-moov'), ('drm-selection-repeated', 'clearkey,clearkey-pro'),
+                ('drm-selection-repeated', 'marlin-moov,playready,marlin-cenc')]
     elif fs == '_errors_from_string':
         out += [('errors-number', '404=5'), ('errors-number', '503=1,410=77,504=3'),
                 ('errors-time', '404=12:34:56Z'), ('errors-time', '503=00:00:01Z,404=23:59:59Z')]
@@ -211,6 +214,7 @@ def gen_manifest_case(ctx: ShardCtx) -> dict:
         ('marlin__la_url', 'ms3://lic.example.test/m?x=1&y=2'),
         ('clearkey__la_url', 'https://ck.example.test/ck?u=v&w=x+y'),
         ('playready__version', rng.choice(['1.0', '2.0', '3.0', '4.0'])),
+        ('drm', rng.choice(['playready-cenc,playready-moov', 'clearkey-moov,clearkey-cenc', 'playready-pro,clearkey,playready-moov'])),
         ('playready__piff', rng.choice(['0', '1'])),
         ('bugs', 'saio'),
         ('failures', str(rng.randrange(0, 4))),
@@ -432,6 +436,16 @@ def run_integration(ctx: ShardCtx, res: ShardResult) -> None:
                             res.violation(f'option-value-differs-at-media-endpoint-{o.cgi_name}',
                                           f'{url}: {ctype} {what}: {full} = {a!r} at the manifest, {b!r} at the media '
                                           f'endpoint (URL {u})', rp)
+                    # (2a) independent of the usage flags of the registry: an error injection that reaches a
+                    # media type takes the failure count with it
+                    qd0 = dict(q)
+                    if case['params'].get('failures') not in (None, '') and any(k in qd0 for k in ('verr', 'aerr', 'terr')):
+                        res.count('int.failure_count_checked')
+                        if qd0.get('failures') != case['params']['failures']:
+                            res.violation('failure-count-not-forwarded-with-error-injection',
+                                          f'{url}: {ctype} {what} URL carries '
+                                          f'{[k for k in ("verr", "aerr", "terr") if k in qd0]} but failures={qd0.get("failures")!r} '
+                                          f'(requested {case["params"]["failures"]!r}): {u}', rp)
                     # (2b) the availability start the media endpoint obtains is the one the manifest declares
                     if doc.type == 'dynamic':
                         ast_doc = doc.dt('availabilityStartTime')
